@@ -3,7 +3,7 @@ import json, os, re
 
 ID = "C04"
 GEN = "c04"
-HARNESS_TEST = "TestC04"
+HARNESS_TEST = "TestC04.*"
 COQ_MODEL = ["C04/Check.v", "Gen/C04Facts.v"]
 COQ_PROOF_DEPS = ["C04/Proofs.v"]  # pulls ProofsBase/Undo/Ops/Inv/Sim/Run
 COQ_OBLIG = ["C04/Property.v", "Gen/C04Oblig.v"]
